@@ -368,6 +368,9 @@ def check_exact(ctx):
 
 
 def run(ctx):
+    from . import c03 as _c03
+
+    _c03.check_is_constant(ctx, "C15-D3 non-measured-values")
     from ..lints import check_caches
 
     check_caches(ctx, "C15-D8 caches", ['estimation._estimation', 'api.estimation'])
